@@ -807,6 +807,20 @@ class Registry:
                 raise
             return self.apply_contract(eng, alt, args, kwargs, st, node, self_expr)
 
+    def bag_as_seq(self, st, v, t):
+        """A list known only in bag view (its element set) handed to a callee that reads it as a sequence: SOME sequence with exactly these
+        elements, in an unknown order, possibly with repetitions (sound: the bag view abstracts a real Python list)."""
+        from .vals import _compatible
+        if not _compatible(v.t[1], t[1]):
+            raise TypeError(f"cannot view {v.t} as {t}")
+        s = z3.Const(fresh_name("aslist"), sort_of(t))
+        j = z3.Int(fresh_name("j"))
+        x = z3.Const(fresh_name("e"), sort_of(t[1]))
+        pos = z3.Function(fresh_name("posof"), sort_of(t[1]), z3.IntSort())
+        st.assume(z3.ForAll([j], z3.Implies(z3.And(0 <= j, j < z3.Length(s)), z3.Select(v.x, s[j]))))
+        st.assume(z3.ForAll([x], z3.Implies(z3.Select(v.x, x), z3.And(0 <= pos(x), pos(x) < z3.Length(s), s[pos(x)] == x))))
+        return V(t, s)
+
     def _apply_contract(self, eng, c: Contract, args, kwargs, st, node, self_expr=None):
         eng.callees.add(c.key)
         """Modular call: assert pre, fork on each raises-condition, assume post. The callee body is never inspected."""
@@ -846,6 +860,8 @@ class Registry:
                     if not eng.spec:
                         eng.oblige(st, znot(a_.x[0]), "pre@call", f"pre@call[{c.key}@{lineno}:{n} is not None]", lineno)
                     a_ = a_.x[1]
+                if a_.t[0] == "bag" and c.params[n][0] == "seq" and not eng.spec and getattr(eng, "qdepth", 0) == 0:
+                    a_ = self.bag_as_seq(st, a_, c.params[n])
                 cs.vars[n] = coerce(a_, c.params[n]) if c.params[n][0] != "closure" and c.params[n] != ("opaque", "Any") else a_
             except TypeError as e:
                 raise BindMismatch(f"{c.key}: argument {n}: {e} (line {lineno})")
